@@ -381,6 +381,90 @@ def finder_monotone(R, ctx):
         R.ob(rid, "%s|monotone" % f["path"].split("::")[-1], not bad, ctx.where(f), "; ".join(bad) if bad else "names and flag only grow")
 
 
+def group_values(R, ctx, rid="C16.group-values"):
+    """group_local_assignment as a whole: after merging, every variable holds what it held and the calls run in the same order."""
+    import itertools
+    from .. import peval, astmodel
+    from ..peval import make, Enum, UNKNOWN, NONE
+    lib = ctx.lib
+    R.rule(rid, "the rule of rules/group_local.rs, evaluated as a whole on two consecutive `local` statements with 1..3 variables and every "
+                "value list of length 0..2 over {a plain value, a call}: the statements left, read with Lua's adjustment rule (every value "
+                "but the last gives one result, the last call gives all of its results, missing values are nil, extra values are evaluated "
+                "and dropped), bind every variable to the same (symbolic) value and evaluate the calls in the same order as the two "
+                "statements did. A `nil` appended after a last call truncates it; a missing `nil` shifts the values of the second statement")
+    B = astmodel.Builder(lib)
+    rules = [f for k, f in lib.fns.items() if k.endswith("FlawlessRule>::flawless_process") and f.get("file", "").endswith("rules/group_local.rs") and thir.body_of(f)]
+    if not R.require(rid, "anchor:rule", not B.missing and len(rules) == 1, "", "the rule of rules/group_local.rs: %s" % [f["path"] for f in rules]):
+        return
+    fn = rules[0]
+
+    def local(names, kinds, tag):
+        vs = []
+        for n in names:
+            t = B.mk(B.TYPED, name=B.ident(n), token=NONE)
+            t.fields["type"] = NONE
+            vs.append(t)
+        vals = []
+        for i, k in enumerate(kinds):
+            if k == "K":
+                vals.append(B.var("k%s%d" % (tag, i)))
+            else:
+                vals.append(Enum(B.EXPR, "Call", {"0": B.mark("f%s%d" % (tag, i)).fields["0"]}))
+        return B.stmt("LocalAssign", B.mk(B.LOCAL, variables=vs, values=vals, tokens=NONE))
+
+    def meaning(block):
+        """(variable -> symbolic value, calls in evaluation order), or None when a statement cannot be read"""
+        env, trace = {}, []
+        stmts = astmodel._unbox(block).fields.get("statements")
+        if not isinstance(stmts, list):
+            return None
+        for st in stmts:
+            if not isinstance(st, peval.Enum) or st.variant != "LocalAssign":
+                return None
+            node = astmodel._unbox(st.fields["0"])
+            names = [astmodel.name_of(t) for t in node.fields["variables"]]
+            results = []
+            vals = node.fields["values"]
+            for i, e in enumerate(vals):
+                e = astmodel._unbox(e)
+                if not isinstance(e, peval.Enum):
+                    return None
+                if e.variant == "Identifier":
+                    got = [astmodel.name_of(e.fields["0"])]
+                elif e.variant == "Call":
+                    f = astmodel.name_of(astmodel._unbox(e.fields["0"]).fields.get("prefix"))
+                    trace.append(f)
+                    got = ["%s#%d" % (f, j) for j in (1, 2, 3)]
+                elif e.variant == "Nil":
+                    got = ["nil"]
+                else:
+                    return None
+                results += got if i == len(vals) - 1 else got[:1]
+            for i, n in enumerate(names):
+                env[n] = results[i] if i < len(results) else "nil"
+        return env, trace
+    lists = [()] + [(a,) for a in "KF"] + [(a, b) for a in "KF" for b in "KF"]
+    names1, names2 = ("a1", "a2", "a3"), ("b1", "b2", "b3")
+    bad, n = [], 0
+    for n1, v1, n2, v2 in itertools.product((1, 2, 3), lists, (1, 2, 3), lists):
+        mk = lambda: B.block([local(names1[:n1], v1, "x"), local(names2[:n2], v2, "y")])
+        want = meaning(mk())
+        got = mk()
+        pe = peval.PEval(lib, ctx.an, fuel=3000000, max_depth=80)
+        try:
+            pe.call_fn(fn, [make(lib, fn["self_tys"]), got, UNKNOWN])
+            m = meaning(got)
+        except peval.OutOfFuel:
+            m = None
+        n += 1
+        if pe.unknown_reasons or m != want:
+            src = "local %s%s local %s%s" % (",".join(names1[:n1]), " = " + ",".join(v1) if v1 else "", ",".join(names2[:n2]), " = " + ",".join(v2) if v2 else "")
+            bad.append((src, pe.unknown_reasons[:3] or (astmodel.show(got) if m is not None else 'unreadable'), m, want))
+    R.ob(rid, "rule|same-bindings", not bad, ctx.where(fn), "%d statement pairs: bindings and call order kept" % n if not bad else
+         "`%s` (K = a value, F = a call) becomes %r: bindings %r, expected %r (%d of %d pairs differ)" % (bad[0][0], bad[0][1], bad[0][2], bad[0][3], len(bad), n))
+    R.require(rid, "floor:pairs", n >= 400, "", "%d statement pairs evaluated" % n)
+
+
 def run(R, ctx):
     R.explanation = (
         "The four anchored guards of the optional refactorings as guard-before-act / decision-table / subset rules on typed THIR, "
@@ -390,6 +474,7 @@ def run(R, ctx):
     R.assumptions += ["FindVariables is trusted to find every textual use of a name (it over-approximates: shadowed uses count as uses)"]
     finder_monotone(R, ctx)
     merge(R, ctx)
+    group_values(R, ctx)
     local_function(R, ctx)
     self_param(R, ctx)
     receiver(R, ctx)
